@@ -3,6 +3,7 @@ package bmreqs
 import (
 	"errors"
 	"fmt"
+	"sort"
 	"strings"
 )
 
@@ -169,7 +170,14 @@ func (rg *ReqRoot) recursiveDump(node string) (string, error) {
 
 func (rg *ReqRoot) Export(r *ExportedReqs, node string) error {
 	if n, err := rg.decodeNode(node); err == nil {
-		for name, set := range n.bmReqMap {
+		// Export in a fixed order: the result is written to file by the tools
+		names := make([]string, 0, len(n.bmReqMap))
+		for name := range n.bmReqMap {
+			names = append(names, name)
+		}
+		sort.Strings(names)
+		for _, name := range names {
+			set := n.bmReqMap[name]
 			*r = append(*r, ExportedReq{Node: node, Type: set.getType(), Req: set.getReqs(), Name: name})
 			if set.supportSub() {
 				subs := set.listSub()
